@@ -1054,3 +1054,59 @@ example : issue false { cn := s "dev", sans := [(.ip, s "192.0.2.7"), (.dns, s "
     some { cn := s "dev", dns := [s "a.example"], emails := [], ips := [s "192.0.2.7"], uris := [] } := by decide
 
 end Verif.SCEP
+
+namespace Verif.SCEP
+open Verif
+
+/-! ## 8. "Any other request is answered with a signed failure reply" -/
+
+/-- A request that reaches the challenge check (decoded, parsed, decrypted to a valid CSR of a CSR
+    type) and whose challenge the configured secret or webhooks do not accept is answered with the
+    failure CertRep (badRequest, no certificate), nothing is stored and nobody is notified. -/
+theorem rejected_challenge_failure_reply (c : Config) (q : Req) (t : MsgType)
+    (hh : q.httpOk = true) (hmt : q.mt = some t) (hp : parse asCoded q ≠ .rejected)
+    (hdec : decrypt asCoded q t = .val .csr) (hv : (validateChallenge c q.cp).1 = false) :
+    pkiOperation asCoded c q =
+      .val { out := .reply failureReply, hookCalls := (validateChallenge c q.cp).2, stored := 0, notifyCalls := 0 } := by
+  have hin := (decrypt_csr asCoded q t hdec).1
+  have hmust : mustCheck asCoded t = true := by
+    have : t = tRenewalReq ∨ t = tUpdateReq ∨ t = tPKCSReq := by simpa [asCoded] using hin
+    rcases this with rfl | rfl | rfl <;> decide
+  unfold pkiOperation
+  simp only [hh, hmt, hdec, hmust]
+  cases hpp : parse asCoded q with
+  | rejected => exact absurd hpp hp
+  | certRep =>
+    cases hvv : validateChallenge c q.cp with
+    | mk b k => simp [hvv] at hv; subst hv; simp
+  | csrReq =>
+    cases hvv : validateChallenge c q.cp with
+    | mk b k => simp [hvv] at hv; subst hv; simp
+
+/-- …and at the HTTP boundary, GET and POST alike: the client receives that CertRep, signed with the
+    key pair `selectSigner` selects (not a bare HTTP error), whenever a signer can be selected. -/
+theorem rejected_challenge_answered_http (S : Server) (n : Nat) (c : Config) (h : HttpReq) (q : Req)
+    (hd : HandlerId) (t : MsgType) (w : Which)
+    (hroute : routeOf routesAsCoded h.meth h.path = .handler hd) (hl : h.lookup = .scep)
+    (hop : dispatchOp hd h = some .pki) (hsig : selectPair S.provPair S.dfltSigner = some w)
+    (hh : q.httpOk = true) (hmt : q.mt = some t)
+    (hp : parse asCoded (withSelectedDecrypter S h q) ≠ .rejected)
+    (hdec : decrypt asCoded (withSelectedDecrypter S h q) t = .val .csr)
+    (hv : (validateChallenge c q.cp).1 = false) :
+    ∃ sv, serve asCoded routesAsCoded S (initN (n + 1) (Prov.new c)) h q = .val sv ∧
+      sv.out = .pkiReply failureReply w ∧ sv.stored = 0 ∧ sv.notifyCalls = 0 := by
+  have hrun := rejected_challenge_failure_reply c (withSelectedDecrypter S h q) t
+    (by simpa [withSelectedDecrypter] using hh) (by simpa [withSelectedDecrypter] using hmt) hp hdec
+    (by simpa [withSelectedDecrypter] using hv)
+  rw [← pkiOperationP_initialised asCoded n c] at hrun
+  unfold serve
+  simp only [hroute, hl, hop, hrun]
+  refine ⟨_, rfl, ?_, rfl, rfl⟩
+  simp [finishPki, pkiOut, hsig]
+
+/-- the hypotheses are met by an ordinary GET enrolment with a wrong challenge -/
+example : ∃ sv, serve asCoded routesAsCoded exServer (initN 1 (Prov.new d4Config)) exHttp
+      { d4Req with mt := some tPKCSReq, cp := [120] } = .val sv ∧ sv.out = .pkiReply failureReply .prov :=
+  ⟨{ out := .pkiReply failureReply .prov, hookCalls := 0, hookHttp := 0, stored := 0, notifyCalls := 0 }, by decide, rfl⟩
+
+end Verif.SCEP
